@@ -70,8 +70,10 @@ fn decode(cfg: &Config, port: u16, write: bool) -> (Vec<Dev>, bool) {
                     (true, true) => d.push(Dev::MouseY),
                     (false, true) => possibly = true,
                 }
-            } else if port & 0x0021 == 0x0001 {
-                // A0 = 1 and A5 = 0: a partially decoding mouse interface may answer here
+            } else if port & 0x00A1 == 0x0081 {
+                // A0 = 1, A5 = 0 and A7 = 1 (the xxDF pattern minus the bits a partially decoding
+                // mouse interface may ignore): the mouse may answer here. Addresses with A7 = 0 are
+                // not "xxDF-style": with A7..A5 = 0 they select the Kempston joystick and nothing else.
                 possibly = true;
             }
         }
@@ -602,7 +604,7 @@ pub fn replay(run: &mut Run, phase: &str, case: &serde_json::Value) -> Result<()
 pub const LEVEL: &str = "exploration";
 pub const RULE: &str = "address-sweep: all 65536 port addresses x {IN A,(C), OUT (C),A} executed by the emulated CPU on 6 device configurations (machine x Kempston x mouse) plus configurations with an I/O extender whose claim predicate is generated (incl. claims overlapping ULA, paging and AY addresses); device states are made distinguishable first (distinct half-rows, joystick byte, mouse counters, 16 distinct AY registers, border, paging latch). An address is judged for routing only if the decode predicates of the property select exactly one device for that direction (or none: reads must give 0xFF in border time, writes must change nothing); every access also checks that no other device's state changed and that the extender log contains exactly the claimed accesses. floating-bus: unclaimed reads at generated beam positions and screen contents, both 128K screen banks. non-trivial = judged address other than the canonical ports the pinned tests use (floating: read inside the fetch window); distinct = (direction, address, configuration)";
 pub const ASSUMPTIONS: &[&str] = &[
-    "decode predicates are written from the property text; the Kempston mouse is judged only at xxDF addresses with (A8,A10) in {(0,0),(1,0),(1,1)}, and any other A0=1/A5=0 address is treated as possibly-mouse (not judged) when a mouse is attached",
+    "decode predicates are written from the property text; the Kempston mouse is judged only at xxDF addresses with (A8,A10) in {(0,0),(1,0),(1,1)}, and any other A0=1/A5=0/A7=1 address is treated as possibly-mouse (not judged) when a mouse is attached; addresses with A7=0 are never mouse addresses",
     "device state is observed through border_color(), the paging hook and the canonical AY ports 0xFFFD/0xBFFD",
     "floating-bus validity: 0xFF outside the 128-T fetch windows (8-T guard band in which anything allowed is accepted), otherwise 0xFF or a display/attribute byte of a line whose window meets the I/O cycle, read from the ULA-visible bank",
     "EAR polarity on ULA reads (bit 6) is exercised by C11, not here",
